@@ -112,7 +112,11 @@ def datadesc(datafield: str) -> str:
     :rtype: str
     """
 
-    (_, _, _, desc) = RTCM_DATA_FIELDS[datafield[0:5]]
+    # strip group index suffixes (e.g. IDF013_01, CELLSIG_02, IDF039_01_103)
+    # until the name matches a data field key (e.g. DF001_7 is a key itself)
+    while datafield not in RTCM_DATA_FIELDS and "_" in datafield:
+        datafield = datafield.rsplit("_", 1)[0]
+    (_, _, _, desc) = RTCM_DATA_FIELDS[datafield]
     return desc
 
 
